@@ -170,7 +170,14 @@ func (propC17) Execute(pp any, x *X) *Violation {
 	var viol *Violation
 	enumerated := 0
 	cutsAccepted := 0
-	w := x.Explore(vsim.Config{Policy: vsim.PolCanonical, Procs: p.Procs}, func() {
+	junk := truncatedAnimation()
+	w := x.Explore(vsim.Config{Policy: vsim.PolCanonical, Procs: p.Procs, RandomPools: true, PoolHitPct: 100}, func() {
+		// history: a failed parse of a truncated animation precedes the enumeration, and
+		// pools hand back used objects, so state kept from failed parses is exposed
+		if junk != nil {
+			webp.GetFeatures(bytes.NewReader(junk))
+			webp.Decode(bytes.NewReader(junk))
+		}
 		var full fullResult
 		full.img, full.decErr = webp.Decode(bytes.NewReader(data))
 		full.cfg, full.cfgErr = webp.DecodeConfig(bytes.NewReader(data))
@@ -290,4 +297,31 @@ func (propC17) Describe() PropDoc {
 		Reference: []string{"the same entry point on the complete file"},
 		MustReach: []string{"torn_write_prefix", "read_error_instead_of_eof", "file_class_extended", "file_class_extended+alph", "file_class_lossy", "file_class_lossless"},
 	}
+}
+
+var truncAnimMemo []byte
+var truncAnimDone bool
+
+// truncatedAnimation: a small valid animation cut in the middle of its last frame.
+func truncatedAnimation() []byte {
+	if truncAnimDone {
+		return truncAnimMemo
+	}
+	truncAnimDone = true
+	r := NewRNG(4242)
+	a := GenAnimSpec(r, 20, 4, true, 50)
+	for len(a.Frames) < 3 {
+		a.Frames = append(a.Frames, AFrame{Mut: "big", Dur: 40, Seed: r.Next()})
+	}
+	for i := range a.Frames {
+		if i > 0 {
+			a.Frames[i].Mut = "big"
+		}
+		a.Frames[i].Type = ""
+		a.Frames[i].Dur = 40
+	}
+	if d := AnimFileFor(a); len(d) > 40 {
+		truncAnimMemo = d[:len(d)-7]
+	}
+	return truncAnimMemo
 }
